@@ -469,7 +469,8 @@ class String(FieldValidator[_P, str], Generic[_P]):
 
         if _VALIDATION_ENABLED.get():
             self.validate_one(value)
-        setattr(obj, self._private_name, value.encode("ascii"))
+        # pad with NULs so that no bytes of a previous, longer value survive after the terminator
+        setattr(obj, self._private_name, value.encode("ascii").ljust(self.len, b"\x00"))
 
     def validate_one(self, value: str):
         """Validate a string value
